@@ -155,6 +155,24 @@ def run_case(ctx, kind, rng, idx):
     for i, t in enumerate(trajs):
         pad[i, :len(t)] = t
     call('padded', pad, exp)
+    # one long-lived padded buffer, refilled in place from case to case and
+    # handed to the library as the very same object (callers reuse batch
+    # buffers): the result may only depend on the current contents
+    if ntraj <= 8 and maxL <= 44 and not wide:
+        buf = getattr(ctx, 'reuse_pad', None)
+        if buf is None:
+            buf = ctx.reuse_pad = -np.ones((8, 44), dtype=np.int64)
+        buf[...] = -1
+        for i, t in enumerate(trajs):
+            buf[i, :len(t)] = t
+        call('reused-buffer', buf, exp)
+        # ... and again straight away with other contents (time-reversed
+        # trajectories), nothing else called in between
+        rev = [t[::-1].copy() for t in trajs]
+        for i, t in enumerate(rev):
+            buf[i, :len(t)] = t
+        call('reused-buffer', buf, oracle(rev, lag, sliding, ns))
+        ctx.count('reused_buffer_calls', 2)
     # rectangular plain array
     if len(set(lens)) == 1:
         call('rect', np.array([t if wide else t.astype(np.int64)
